@@ -29,7 +29,7 @@ class SrcFile:
         self.rel = rel
         self.src = src
         self.bsrc = src.encode()
-        self.ast = ast
+        self.ast = _fold_condition_aliases(ast)
         self._starts = [0]
         for i, b in enumerate(self.bsrc):
             if b == 10:
@@ -40,6 +40,102 @@ class SrcFile:
 
     def text(self, lo, hi):
         return self.bsrc[lo:hi].decode(errors="replace")
+
+
+def _fold_condition_aliases(ast):
+    """`let c = <cond>; if c { .. }` (the name used nowhere else) is read as `if <cond> { .. }`: a condition that was
+    given a name one statement earlier is the same condition. Only this adjacent, single-use form is folded; the
+    evaluation order is unchanged by it."""
+
+    def count_name(n, name):
+        c = 0
+        stack = [n]
+        while stack:
+            x = stack.pop()
+            if isinstance(x, dict):
+                if x.get("_") == "Expr::Path" and len(x["path"]["segments"]) == 1 and x["path"]["segments"][0]["ident"]["sym"] == name:
+                    c += 1
+                if x.get("_") == "Ident" and x.get("sym") == name and "span" in x and False:
+                    c += 1
+                if x.get("_") in ("Macro",) and isinstance(x.get("tokens"), list):
+                    # a use inside macro tokens (quote!{ #name }, format!("{name}")): not foldable
+                    def toks(ts):
+                        for t in ts:
+                            if isinstance(t, dict):
+                                if t.get("_") == "Ident" and t.get("sym") == name:
+                                    return True
+                                if t.get("_") == "Group" and toks(t.get("stream", [])):
+                                    return True
+                                if t.get("_") == "Literal" and isinstance(t.get("lit"), dict) and "{" + name in (t["lit"].get("value") or ""):
+                                    return True
+                        return False
+
+                    if toks(x["tokens"]):
+                        c += 2
+                stack.extend(v for k, v in x.items() if k != "_" and isinstance(v, (dict, list)))
+            elif isinstance(x, list):
+                stack.extend(v for v in x if isinstance(v, (dict, list)))
+        return c
+
+    def cond_name(c):
+        neg = 0
+        while isinstance(c, dict) and c.get("_") in ("Expr::Paren", "Expr::Unary"):
+            if c["_"] == "Expr::Unary":
+                if not (isinstance(c.get("op"), dict) and c["op"].get("_") == "UnOp::Not") and c.get("op") != "UnOp::Not":
+                    return None
+                neg += 1
+            c = c["expr"]
+        if isinstance(c, dict) and c.get("_") == "Expr::Path" and len(c["path"]["segments"]) == 1:
+            return c["path"]["segments"][0]["ident"]["sym"]
+        return None
+
+    SIMPLE = ("Expr::Path", "Expr::MethodCall", "Expr::Call", "Expr::Field", "Expr::Macro", "Expr::Paren", "Expr::Lit", "Expr::Index", "Expr::Try")
+
+    def subst(c, name, init, top=True):
+        if isinstance(c, dict) and c.get("_") in ("Expr::Paren", "Expr::Unary"):
+            d = dict(c)
+            d["expr"] = subst(c["expr"], name, init, top and c.get("_") == "Expr::Paren")
+            return d
+        # `if name` reads `if <expr>`; under `!` a compound expression keeps its parentheses: `!(a && b)`
+        if top or (isinstance(init, dict) and init.get("_") in SIMPLE):
+            return init
+        return {"_": "Expr::Paren", "attrs": [], "expr": init}
+
+    def rewrite(x):
+        if isinstance(x, list):
+            return [rewrite(v) for v in x]
+        if not isinstance(x, dict):
+            return x
+        x = {k: rewrite(v) for k, v in x.items()}
+        if x.get("_") == "Block" and isinstance(x.get("stmts"), list):
+            st = x["stmts"]
+            out = []
+            i = 0
+            while i < len(st):
+                a = st[i]
+                b = st[i + 1] if i + 1 < len(st) else None
+                folded = False
+                if isinstance(a, dict) and a.get("_") == "Stmt::Local" and isinstance(b, dict) and b.get("_") == "Stmt::Expr" and isinstance(b.get("0"), dict) and b["0"].get("_") == "Expr::If":
+                    pat = a.get("pat")
+                    init = a.get("init")
+                    if isinstance(pat, dict) and pat.get("_") == "Pat::Ident" and not pat.get("mutability") and not pat.get("by_ref") and not pat.get("subpat") and isinstance(init, dict) and init.get("diverge") is None:
+                        name = pat["ident"]["sym"]
+                        iff = b["0"]
+                        if cond_name(iff["cond"]) == name and count_name(st[i + 1 :], name) == 1:
+                            nb = dict(b)
+                            nif = dict(iff)
+                            nif["cond"] = subst(iff["cond"], name, init["expr"])
+                            nb["0"] = nif
+                            out.append(nb)
+                            i += 2
+                            folded = True
+                if not folded:
+                    out.append(a)
+                    i += 1
+            x["stmts"] = out
+        return x
+
+    return rewrite(ast)
 
 
 def dump(paths):
